@@ -44,7 +44,11 @@ def decide(prop: str, tier: str, seed: int) -> int:
     # 2. build the property module
     prop_module = f'PanqecVerif.Properties.{prop}'
     prop_file = core.LEAN_DIR / 'PanqecVerif' / 'Properties' / f'{prop}.lean'
-    ok, log = core.lake_build([prop_module, 'panqec_model'])
+    if os.environ.get('VERIF_DEV_NOLEAN'):   # development only: skip the proof side
+        ok, log = core.lake_build(['panqec_model'])
+        prop_file = Path('/nonexistent')
+    else:
+        ok, log = core.lake_build([prop_module, 'panqec_model'])
     names = core.theorem_names(prop_file) if prop_file.exists() else []
     discharged = 0
     axioms_used = {}
